@@ -73,6 +73,9 @@ def IGNORE(r):
     return p
 
 
+SESSION_STATES = ('OpenSent', 'OpenConfirm', 'Established')
+
+
 def TO_IDLE(code=None, sub=None, need_close=True):
     def chk(r):
         p = []
@@ -102,6 +105,12 @@ def TO_IDLE(code=None, sub=None, need_close=True):
         if r.final == 'Idle' and r.pre not in ('Idle', 'Active') and r.event != 'MSTOP' and \
                 allow_of(r) is not False and has_token(r) is None:
             p.append('ends in Idle with no reconnection pending (no idle-hold timer, no connect, no close)')
+        # RFC 4271 8.2.2: on the way to Idle the FSM releases all BGP resources; a session timer that keeps
+        # running fires in a later Connect / OpenSent and tears the new attempt down
+        if r.final == 'Idle' and r.pre in SESSION_STATES and code is not None:
+            left = [t for t in ('hold', 'keep_alive') if r.timer_final(t) != 'off']
+            if left:
+                p.append('the %s timer is not stopped by the error close' % ' / '.join(left))
         return p
     chk.__name__ = 'TO_IDLE(%s,%s)' % (code if code is not None else '-', sub if sub is not None else '*')
     return chk
